@@ -2,6 +2,11 @@ package main
 
 import (
 	"bufio"
+	"fmt"
+	"os"
+	"os/exec"
+	"path/filepath"
+	"strings"
 	"sync"
 )
 
@@ -50,5 +55,74 @@ func parallelCases(cases [][]string, workers int, out *bufio.Writer, f func(c []
 	for _, r := range res {
 		out.WriteString(r)
 		out.WriteString("\n")
+	}
+}
+
+// isolatedCases runs f over the cases in child processes (the tool aborts with os.Exit on many
+// error paths): when a child dies the case it was running is reported as "abort=<exit code>"
+// and a new child continues with the rest.  conf.Options is global, so a child runs its cases
+// one after the other; `workers` children run side by side.
+func isolatedCases(prop string, cases [][]string, workers int, out *bufio.Writer, f func(c []string) string) {
+	if os.Getenv("RSPROBE_CHILD") == "1" {
+		for _, c := range cases {
+			out.WriteString(c[0] + " " + f(c) + "\n")
+			out.Flush()
+		}
+		return
+	}
+	res := make([]string, len(cases))
+	var wg sync.WaitGroup
+	tmp, _ := os.MkdirTemp("", "rsprobe-iso")
+	defer os.RemoveAll(tmp)
+	for w := 0; w < workers; w++ {
+		wg.Add(1)
+		go func(w int) {
+			defer wg.Done()
+			var idx []int
+			for i := w; i < len(cases); i += workers {
+				idx = append(idx, i)
+			}
+			round := 0
+			for len(idx) > 0 {
+				round++
+				cf := filepath.Join(tmp, fmt.Sprintf("c-%d-%d.txt", w, round))
+				of := filepath.Join(tmp, fmt.Sprintf("o-%d-%d.txt", w, round))
+				var b strings.Builder
+				for _, i := range idx {
+					b.WriteString(strings.Join(cases[i], " "))
+					b.WriteString("\n")
+				}
+				os.WriteFile(cf, []byte(b.String()), 0o644)
+				cmd := exec.Command(os.Args[0], prop, cf, of)
+				cmd.Env = append(os.Environ(), "RSPROBE_CHILD=1")
+				err := cmd.Run()
+				data, _ := os.ReadFile(of)
+				done := 0
+				for _, line := range strings.Split(string(data), "\n") {
+					if line == "" || done >= len(idx) {
+						continue
+					}
+					sp := strings.SplitN(line, " ", 2)
+					if sp[0] != cases[idx[done]][0] || len(sp) < 2 {
+						continue
+					}
+					res[idx[done]] = sp[1]
+					done++
+				}
+				if done < len(idx) {
+					code := -1
+					if ee, ok := err.(*exec.ExitError); ok {
+						code = ee.ExitCode()
+					}
+					res[idx[done]] = fmt.Sprintf("abort=%d", code)
+					done++
+				}
+				idx = idx[done:]
+			}
+		}(w)
+	}
+	wg.Wait()
+	for i, r := range res {
+		out.WriteString(cases[i][0] + " " + r + "\n")
 	}
 }
